@@ -18,11 +18,13 @@ Apis == IF Family = "risorcall" THEN {"RisorCall", "Call"} ELSE {"RunCode", "Cal
 \* panic at once or 600 script frames deep, recurses until the frame stack (overflow) or the operand stack (opoverflow)
 \* overflows, or is cancelled mid-run
 Kinds == IF Family = "import" THEN {"impmod", "impok", "imperr", "impcancel"}
+         \* deferred calls that defer again: 40 deep (completes) and 1000 deep ending in a Go panic that the API recovers
+         ELSE IF Family = "defer" THEN {"normal", "error", "defernest", "deferpanic"}
          ELSE IF Family = "risorcall" THEN {"normal", "error", "cancelled", "badargs"}   \* badargs: wrong argument count
          ELSE {"normal", "error", "panic", "deeppanic", "overflow", "opoverflow", "cancelled"}
 \* the context the invocation runs under: cancellable, or context.Background() (no Done channel)
-CtxKinds(kind) == IF kind \in {"normal", "error", "impok", "imperr", "impmod", "badargs"} THEN {"cancel", "background"} ELSE {"cancel"}
-Expected(kind) == CASE kind \in {"normal", "impok", "impmod"} -> "value" [] kind \in {"imperr", "badargs"} -> "anyerror" [] kind = "impcancel" -> "ctxerr"
+CtxKinds(kind) == IF kind \in {"normal", "error", "impok", "imperr", "impmod", "badargs", "defernest"} THEN {"cancel", "background"} ELSE {"cancel"}
+Expected(kind) == CASE kind \in {"normal", "impok", "impmod", "defernest"} -> "value" [] kind = "deferpanic" -> "anyerror" [] kind \in {"imperr", "badargs"} -> "anyerror" [] kind = "impcancel" -> "ctxerr"
                     [] kind = "error" -> "index error" [] kind \in {"panic", "deeppanic"} -> "panic"
                     [] kind \in {"overflow", "opoverflow"} -> "anyerror" [] kind = "cancelled" -> "ctxerr"
 \* invocation i may cancel the context of any earlier invocation (the interesting ones: those that finished)
